@@ -535,11 +535,13 @@ def face_vertices(m, rng, force=None):
 
 
 def topology_args(m, rng, force=None):
-    d = {"start_index": _pick(rng, [0, 1]), "fill": _pick(rng, [-1, -999, 999999, "intmin", "none"]), "dtype": _pick(rng, ["int32", "int64"]),
+    d = {"start_index": _pick(rng, [0, 1]), "fill": _pick(rng, [-1, -999, 999999, "intmin", "none", 0]), "dtype": _pick(rng, ["int32", "int64"]),
          "lon": _pick(rng, ["-180..180", "0..360"]), "via": _pick(rng, ["from_topology", "open_grid_dict"]), "edge_table": bool(rng.random() < 0.3),
          "container": _pick(rng, ["ndarray", "ndarray", "list"])}
     if force:
         d.update(force)
+    if d["fill"] == 0:
+        d["start_index"] = 1  # one-based tables padded with 0 (as MPAS and many Fortran codes write them)
     mixed = len({len(f) for f in m.faces}) > 1
     d.setdefault("extra_width", _pick(rng, [0, 0, 0, 1, 2]))
     d["padded"] = mixed or d["extra_width"] > 0
